@@ -26,7 +26,7 @@ def main():
                    'structural sufficiency of K for set sizes above the E2 bound']
     # quick tier: the sample emphasises the size-window and required-overlap clauses (C01's quick
     # sample takes every prefix-length clause); the thorough tier proves all of K
-    e1_stage.run_contract(ck, ck.tier, max_obligations=130 if quick else None,
+    e1_stage.run_contract(ck, ck.tier, max_obligations=100 if quick else None,
                           always=('mono',), kinds=('lb', 'ub', 'alpha', 'mono') if quick else None)
     for flt in ('SizeFilter', 'PrefixFilter', 'PositionFilter', 'SuffixFilter'):
         for measure in ('JACCARD', 'COSINE', 'DICE'):
@@ -39,6 +39,19 @@ def main():
         ck.e2('pair-%s-real' % flt, h_pair.make(dict(
             filter=flt, measure='JACCARD', k=kp, kmin=0, kernel='real', thresholds=[0.3, 0.5, 0.8, 1.0],
             props=P)), bounds=dict(k=kp, thresholds=[0.3, 0.5, 0.8, 1.0], kernel='real'))
+    # unequal sizes (4 against 7 tokens), real kernel: positional / suffix bounds with asymmetric records
+    for flt, measure, thrs in (('PrefixFilter', 'JACCARD', [0.5, 0.6]), ('PositionFilter', 'JACCARD', [0.5, 0.6]),
+                               ('SuffixFilter', 'COSINE', [0.7])) + ((('SizeFilter', 'DICE', [0.7]),) if not quick else ()):
+        ck.e2('pair-%s-4x7' % flt, h_pair.make(dict(
+            filter=flt, measure=measure, kl=4, kr=7, kminl=4, kminr=7 if quick else 6, kernel='real',
+            thresholds=thrs, allow_empty=[True], props=P)), stop_on_violation=False,
+            bounds=dict(sizes='4 vs 7 tokens', thresholds=thrs))
+        if quick and flt != 'SuffixFilter':
+            continue
+        ck.e2('pair-%s-7x4' % flt, h_pair.make(dict(
+            filter=flt, measure=measure, kl=7, kr=4, kminl=7, kminr=4, kernel='real',
+            thresholds=thrs, allow_empty=[True], props=P)), stop_on_violation=False,
+            bounds=dict(sizes='7 vs 4 tokens', thresholds=thrs))
     ck.e2('pair-OverlapFilter', h_pair.make(dict(filter='OverlapFilter', measure='OVERLAP', k=kp,
                                                  thresholds=[1, 2, 3], comp_ops=['>='], props=P + ['C06'])))
     thr = [0.5, 0.75] if quick else [0.3, 0.5, 0.75, 0.8, 1.0]
